@@ -240,6 +240,10 @@ class Ref(object):
             self.dflt = w[1]
             self.rules = {unx(a): r for a, r in (x.split("=") for x in split_list(w[2]))}
             return "ok"
+        if op == "overwrite":
+            rs = {unx(a): r for a, r in (x.split("=") for x in split_list(w[2]))}
+            self.reset(w[1], rs)
+            return self._install(list(rs.items()), hint_pages)
         if op == "clear":
             d = self.dflt if w[1] == "-" else w[1]
             rs = self.rules if w[2] == "none" else {unx(a): r for a, r in (x.split("=") for x in split_list(w[2]))}
@@ -471,6 +475,14 @@ class Ref(object):
             if self.cfg[2] != "1":
                 res.discard(0)
             return "ok " + brack([str(x) for x in sorted(res)])
+        if q == "wedeg":
+            sizes = []
+            for kind in ("wein", "weout"):
+                a = self.expect_query([kind] + w[1:])
+                if not a.startswith("ok"):
+                    return a
+                sizes.append(len(split_list(a[3:])))
+            return "ok " + brack([str(sizes[0]), str(sizes[1]), str(sizes[0] + sizes[1])])
         if q == "pagelinksof":
             return "ok " + self.links_str(self.page_links(unx(w[1]), w[2] == "1", w[3] == "1", w[4] == "1"))
         if q == "pagedeg":
